@@ -28,6 +28,9 @@ import (
 type Graph struct {
 	Succ map[string][]string `json:"succ"`
 	Init []string            `json:"init"`
+	// Meet: items whose f, once started, waits until all of them have started (free mode only; Do must be given at
+	// least len(Meet)+1 runners): work that only gets done when every runner that was put to sleep is woken up again
+	Meet []string `json:"meet,omitempty"`
 }
 
 type Event struct {
@@ -77,7 +80,7 @@ func runOne(n int, g Graph, strat vsched.Strategy, budget int) ([]Event, vsched.
 	var mu sync.Mutex
 	log := func(e, r, x string) {
 		mu.Lock()
-		if len(evs) < maxEvents { // a run that never ends is cut by the step budget; keep its trace small
+		if len(evs) < maxEvents || (len(g.Succ["root"]) > 1000 && len(evs) < 20000) { // a run that never ends is cut by the step budget; keep its trace small
 			evs = append(evs, Event{e, r, x})
 		}
 		mu.Unlock()
@@ -136,6 +139,8 @@ func runOne(n int, g Graph, strat vsched.Strategy, budget int) ([]Event, vsched.
 		p.Visits++
 		return names[p]
 	}
+	var meetMu sync.Mutex
+	meetN, meetCh := 0, make(chan struct{})
 	body := func() {
 		w := &par.Work{}
 		for _, x := range g.Init {
@@ -152,10 +157,31 @@ func runOne(n int, g Graph, strat vsched.Strategy, budget int) ([]Event, vsched.
 				r = fmt.Sprintf("c%d", atomic.AddInt64(&callSeq, 1))
 			}
 			log("FStart", r, x)
+			for _, m := range g.Meet {
+				if m == x {
+					meetMu.Lock()
+					meetN++
+					if meetN == len(g.Meet) {
+						close(meetCh)
+					}
+					meetMu.Unlock()
+					select {
+					case <-meetCh:
+					case <-time.After(freeHang + 5*time.Second): // (the hang watchdog of the run fires first)
+					}
+				}
+			}
 			vsched.Yield("f")
 			for _, y := range g.Succ[x] {
 				log("AddCall", r, y)
 				w.Add(toItem(y))
+			}
+			if x == "root" && len(g.Meet) > 0 {
+				// the adder waits for the items it added to have started: it cannot run them itself
+				select {
+				case <-meetCh:
+				case <-time.After(freeHang + 5*time.Second):
+				}
 			}
 			log("FEnd", r, x)
 		})
@@ -373,6 +399,21 @@ func main() {
 			g := randomGraph(rng, 2+rng.Intn(7))
 			if i%16 == 11 {
 				g = Graph{Succ: map[string][]string{}, Init: []string{}} // nothing added: Do returns at once
+			}
+			if i == 7 {
+				// one item adds 1500 others: more than any queue bound an implementation might have
+				kids := make([]string, 1500)
+				for k := range kids {
+					kids[k] = fmt.Sprintf("k%04d", k)
+				}
+				g = Graph{Succ: map[string][]string{"root": kids}, Init: []string{"root"}}
+				n = 1 + (int(vutil.Seed()) % 3)
+			}
+			if i%16 == 3 {
+				// an item adds two others while the other runners sleep; the two only finish once both have started,
+				// so both sleepers have to be woken
+				n = 3 + rng.Intn(3)
+				g = Graph{Succ: map[string][]string{"root": {"mx", "my"}}, Init: []string{"root"}, Meet: []string{"mx", "my"}}
 			}
 			wg.Add(1)
 			sem <- struct{}{}
